@@ -104,6 +104,11 @@ type Unit struct {
 	Desc   string
 	// NewFile is set for uRotate: index of the file that follows.
 	NewFile int
+	// Poison: the unit re-announces a cached table id with a different column
+	// count. The mapper table fetched for that id no longer agrees with the table
+	// map, so the stream must end with an error here (C15) - nothing of this unit
+	// or after it may be delivered.
+	Poison bool
 }
 
 // BinFile is one binlog file.
@@ -153,6 +158,9 @@ type GenOpts struct {
 	ForceCfg     *HistCfg
 	BigOffsets   bool
 	TableIDReuse bool // several ids, re-announcements, type changes
+	OddNames     bool // unusual binlog file names
+	CountChange  bool // C15: a cached table id is re-announced with another column count
+	Jumbo        bool // one value large enough to split the event over several MySQL packets
 }
 
 func (h *History) ts(s *Stream) uint32 {
@@ -273,6 +281,7 @@ type builder struct {
 	file int
 	off  uint32
 	unit int
+	forceRows bool // every rows event carries at least one row
 }
 
 func (b *builder) curFile() *BinFile { return b.h.Files[b.file] }
@@ -299,6 +308,39 @@ func (b *builder) add(typ byte, ts uint32, flags uint16, body []byte, desc strin
 
 func fileName(i int, s *Stream) string {
 	return fmt.Sprintf("mysql-bin.%06d", i+1)
+}
+
+// oddFileName: binlog base names are free-form on the master (log_bin=<anything>):
+// long names, spaces, non-ASCII and arbitrary bytes other than NUL.
+func oddFileName(i int, s *Stream) string {
+	suffix := fmt.Sprintf(".%06d", i+1)
+	switch s.Weighted(3, 1, 1, 1, 1, 1) {
+	case 0:
+		return "mysql-bin" + suffix
+	case 1:
+		return fmt.Sprintf("%c", 'a'+rune(i%26)) // one byte, unique per file
+	case 2:
+		return strings.Repeat("x", 255-len(suffix)) + suffix // 255 bytes
+	case 3:
+		return "bin log with spaces" + suffix
+	case 4:
+		return "b\xc3\xa4r-\xe6\x97\xa5\xe5\xbf\x97" + suffix
+	default:
+		b := s.Bytes(1 + s.N(40))
+		for k := range b {
+			if b[k] == 0 {
+				b[k] = 0xff
+			}
+		}
+		return string(b) + suffix
+	}
+}
+
+func (b *builder) nextFileName() string {
+	if b.o.OddNames {
+		return oddFileName(len(b.h.Files), b.s)
+	}
+	return fileName(len(b.h.Files), b.s)
 }
 
 func (b *builder) startFile(name string, gap uint32) {
@@ -527,7 +569,7 @@ func (b *builder) rowsStatement(ts uint32, tables []*TableDef) []ExpEvent {
 		for e := 0; e < nev; e++ {
 			kind := s.N(3) // 0 insert 1 update 2 delete
 			nrows := 1 + s.N(b.o.MaxRows)
-			if s.Chance(1, 30) {
+			if s.Chance(1, 30) && !b.forceRows {
 				nrows = 0
 			}
 			if len(t.Cols) > 100 && nrows > 2 {
@@ -748,7 +790,7 @@ func (b *builder) addUnit(kind unitKind) {
 	case uIgnorable:
 		b.ignorable(ts)
 	case uRotate:
-		next := fileName(len(h.Files), s)
+		next := b.nextFileName()
 		b.add(evRotate, ts, 0, rotateBody(4, next), "ROTATE -> "+next)
 		u.End = b.off
 		u.Events = b.curFile().Events[startIdx:]
@@ -843,7 +885,7 @@ func GenHistory(s *Stream, o *GenOpts) *History {
 			gap = 1<<24 - uint32(s.N(600))
 		}
 	}
-	b.startFile(fileName(0, s), gap)
+	b.startFile(b.nextFileName(), gap)
 	nunits := o.MinUnits + s.N(o.MaxUnits-o.MinUnits+1)
 	rotLeft := o.MaxFiles - 1
 	w := o.UnitWeights
@@ -875,7 +917,49 @@ func GenHistory(s *Stream, o *GenOpts) *History {
 		}
 		b.addUnit(k)
 	}
+	if o.CountChange && s.Chance(1, 3) {
+		b.addPoisonUnit()
+		if s.Chance(1, 2) {
+			b.addUnit(uTxXID) // never delivered: the stream ended at the poison unit
+		}
+	}
 	return h
+}
+
+// addPoisonUnit: BEGIN, a table map that re-announces an existing table id with
+// k more or fewer columns, rows encoded for that map, XID.
+func (b *builder) addPoisonUnit() {
+	s := b.s
+	h := b.h
+	orig := h.Tables[s.N(len(h.Tables))]
+	t := &TableDef{ID: orig.ID, DB: orig.DB, Name: orig.Name, Flags: orig.Flags}
+	t.Cols = append(t.Cols, orig.Cols...)
+	if len(t.Cols) > 1 && s.Chance(1, 2) {
+		t.Cols = t.Cols[:len(t.Cols)-1-s.N(minInt(3, len(t.Cols)-1))]
+	} else {
+		n := 1 + s.N(3)
+		for i := 0; i < n; i++ {
+			t.Cols = append(t.Cols, genColDef(s, len(t.Cols), &b.o.Prof))
+		}
+	}
+	u := &Unit{Kind: uTxXID, File: b.file, Start: b.off, Poison: true}
+	b.unit = len(h.Units)
+	h.Units = append(h.Units, u)
+	startIdx := len(b.curFile().Events)
+	ts := h.ts(s)
+	b.gtidEvent(ts)
+	b.queryEvent(ts, b.pickDB(), "BEGIN")
+	// the table must have been announced with its real shape on this connection
+	// first (otherwise the first-sight check fires, which is also an error)
+	b.forceRows = true
+	b.rowsStatement(ts, []*TableDef{orig})
+	exps := b.rowsStatement(ts, []*TableDef{t})
+	b.forceRows = false
+	commit := b.add(evXID, h.ts(s), 0, le64(nil, s.U64()), "XID")
+	u.Tx = &ExpTx{Unit: b.unit, Next: b.posOf(commit), Timestamp: int64(commit.Timestamp), Events: exps, Commit: commit}
+	u.End = b.off
+	u.Events = b.curFile().Events[startIdx:]
+	u.Desc = "tx-with-column-count-change"
 }
 
 // ---------------------------------------------------------------------------
@@ -970,6 +1054,19 @@ func (h *History) unitsFrom(p Pos) (idx []int, ok bool) {
 
 // Model returns the deliveries expected from a stream that starts at p.
 func (h *History) Model(p Pos) ([]*ExpTx, bool) {
+	txs, _, ok := h.ModelP(p)
+	return txs, ok
+}
+
+// ModelP additionally reports the index of the poison unit (or -1) at which
+// the stream must end with an error.
+func (h *History) ModelP(p Pos) ([]*ExpTx, int, bool) {
+	poison := -1
+	txs, ok := h.model(p, &poison)
+	return txs, poison, ok
+}
+
+func (h *History) model(p Pos, poison *int) ([]*ExpTx, bool) {
 	idx, ok := h.unitsFrom(p)
 	if !ok || !h.IsEventBoundary(p) {
 		return nil, false
@@ -990,6 +1087,10 @@ func (h *History) Model(p Pos) ([]*ExpTx, bool) {
 			cur = Pos{h.Files[u.NewFile].Name, 4}
 			curFile = u.NewFile
 			continue
+		}
+		if u.Poison {
+			*poison = i
+			break
 		}
 		if u.Tx != nil {
 			tx := *u.Tx
